@@ -18,7 +18,13 @@ def reg(module, names):
 PV = 'rules::path_value'
 VAL = 'rules::values'
 
+EV = 'rules::eval'
+
 UNITS = {
+    'U-cnf': dict(functions='eval::eval_conjunction_clauses (real generic code, T = leaf code)',
+                  cls='bounded (all shapes <= 2 lines x <= 2 alternatives quick; <= 3 x 3 thorough; every leaf in PASS/FAIL/SKIP/Err)',
+                  quick=reg(EV, ['k_cnf_0', 'k_cnf_1', 'k_cnf_2_22']), thorough=reg(EV, ['k_cnf_2_33', 'k_cnf_3_a1', 'k_cnf_3_a2', 'k_cnf_3_a3']),
+                  assumptions=[STUBS[0], 'leaf evaluators obey clause_post (one record, status == result)'], timeout=900),
     'U-cmp-int': dict(functions='path_value::compare_values/compare_eq/compare_lt/le/gt/ge on Int', cls='complete (all i64 x i64)',
                       quick=reg(PV, ['k_cmp_int']), thorough=[], assumptions=STUBS, timeout=300),
     'U-cmp-float': dict(functions='path_value::compare_* on Float', cls='complete (all finite f64 x f64; NaN separately)',
